@@ -504,7 +504,15 @@ def corr_vmec(rng, objs):
         else:
             g = lambda k: re.search(r'^\s*' + k + r' = (.*)$', txt, re.M).group(1)
             def chk(name, a, c):
-                if a != c:
+                # floating-point values agree to a few ulp (the model fixes one association of the products; an equivalent
+                # one, e.g. r*r computed once, moves the last digit), everything else exactly
+                def close(x, y):
+                    if isinstance(x, float) and isinstance(y, float):
+                        return x == y or abs(x - y) <= 4e-15 * max(abs(x), abs(y))
+                    if isinstance(x, list) and isinstance(y, list) and len(x) == len(y) and all(isinstance(t, float) for t in x + y):
+                        return all(close(u, v) for u, v in zip(x, y))
+                    return x == y
+                if not close(a, c):
                     bad.append('%s: file %r model %r' % (name, a, c))
             try:
                 chk('mpol', int(g('MPOL')), int(blk['mpol'][0])); chk('NTOR', int(g('NTOR')), int(blk['NTOR'][0]))
@@ -527,7 +535,7 @@ def corr_vmec(rng, objs):
                 ml = [int(x) for x in blk.get('lines', [])]; mv = [unbits(x) for x in blk.get('vals', [])]
                 chk('lines', fl, ml)
                 if len(fv) == len(mv):
-                    chk('vals', all(abs(a - c) <= 1e-15 * abs(c) for a, c in zip(fv, mv)), True)
+                    chk('vals', all(abs(a - c) <= 4e-15 * abs(c) for a, c in zip(fv, mv)), True)
                 else:
                     bad.append('number of values')
                 chk('attr array', int(blk['asym_attr_is_array'][0]), 1 if isinstance(q.RBS, np.ndarray) and np.ndim(q.RBS) == 2 else 0)
